@@ -221,6 +221,8 @@ def gen(ck):
     files = []
     for _ in range(1500 if not thorough else 40000):
         files.append(smf.random_file(rng, big=thorough and rng.random() < 0.05))
+        if rng.random() < 0.15:
+            files[-1]['charset'] = 'utf-8'      # the file's own charset must be in force while its text is encoded and decoded
     bad = []
     for d in files[:120 if not thorough else 3000]:
         bad += unstorable_variants(rng, d)
@@ -266,9 +268,12 @@ def run(ck):
         wreq.append(desc_request(d))
         wimpl.append(wl)
         if wl.startswith('ok') and rl != 'skip':
-            rreq.append('smfread latin1 0 ' + wl[3:])
+            cs = {'latin1': 'latin1', 'ascii': 'ascii', 'utf-8': 'utf8'}[d.get('charset', 'latin1')]
+            rreq.append('smfread %s 0 %s' % (cs, wl[3:]))
             rimpl.append(rl)
-            saved.append([int(x) for x in wl[3:].split()])
+            if cs == 'latin1':
+                saved.append([int(x) for x in wl[3:].split()])
+            ck.count('charset:' + cs)
     for d in (files[0], files[7]):
         ck.sample({'type': d['type'], 'tpb': d['tpb'], 'tracks': [[smf.event_token(e) for e in tr[:6]] for tr in d['tracks'][:2]]})
     ck.compare('smf_write', wreq, wimpl, ck.driver.run(wreq))
